@@ -111,7 +111,7 @@ def cases(ctx):
                 if mine():
                     yield {"kind": "rot", "axis": axis, "d": d, "q": q, "mode": "hw", "debug": False}
     rng = ctx.rng
-    for _ in range(ctx.n(150, 20000) * ctx.nshards):
+    for _ in range(ctx.n(150, 100000) * ctx.nshards):
         if mine():
             n1, n2 = rng.choice([0, 1, 100, 127, 128, 200, 255, rng.randrange(256)]), rng.choice([1, 56, 100, 128, 200, 255, rng.randrange(256)])
             d = rng.choice([0, 1, 4, 7, 8, 9, 12, 31, rng.randrange(40)])
